@@ -1,5 +1,7 @@
 package verifharness
 
+import "os"
+
 // C17: behaviourally neutral callbacks.  All 2^8 callback subsets are
 // enumerated round-robin over generated histories; the oracles of C01, C02,
 // C06 and C14 stay on, and the file produced must be byte-identical to the
@@ -80,6 +82,10 @@ func runC17(c Case) (*Violation, map[string]int) {
 		return nil, ev
 	}
 	if string(img1) != string(img2) {
+		if d := os.Getenv("VERIF_DUMP"); d != "" {
+			os.WriteFile(d+"/c17-with.img", img1, 0644)
+			os.WriteFile(d+"/c17-without.img", img2, 0644)
+		}
 		i := 0
 		for i < len(img1) && i < len(img2) && img1[i] == img2[i] {
 			i++
